@@ -191,8 +191,10 @@ Proof. intros I. unfold heartbeat_check.
   destruct (closed s), (closed s1), (closed s3); auto; try (specialize (M1 eq_refl); discriminate); try (specialize (M3 eq_refl); discriminate). Qed.
 
 Lemma do_release_cbs_no_close k r imgs s : n_close (fst (snd (do_release k r imgs s))) = 0%nat.
-Proof. unfold do_release, inactive_cb. dmatch; cbn [fst snd]; [rewrite n_close_app|]; destruct (driver_active s); cbn; auto;
-  unfold n_close; rewrite filter_none; auto; intros x Hx; apply in_map_iff in Hx; destruct Hx as (i & <- & _); reflexivity. Qed.
+Proof. assert (Hi : n_close (inactive_cb s) = 0%nat) by (unfold inactive_cb; destruct (driver_active s); reflexivity).
+  assert (Hm : n_close (map (fun img => CbUnavailImg r img 1) imgs) = 0%nat).
+  { unfold n_close. rewrite filter_none; auto. intros x Hx. apply in_map_iff in Hx. destruct Hx as (i & <- & _). reflexivity. }
+  unfold do_release. dmatch; [|exact Hi]. destruct (ring_full s); [destruct k|]; cbn [fst snd]; rewrite ?n_close_app, ?Hi, ?Hm; reflexivity. Qed.
 
 (* the number of close-handler calls of one operation: one when this operation closes the client, else none *)
 Lemma step_close_count c s o : inv s -> n_close (snd (fst (snd (step c s o)))) = delta s (fst (step c s o)).
@@ -206,6 +208,7 @@ Proof. intros I. destruct o; cbn [step].
   - unfold do_peek. dmatch; cbn; rewrite delta_same; reflexivity.
   - unfold do_close. destruct (close_all s) as [[s1 cbs] hang] eqn:E. pose proof (close_all_delta' _ _ _ _ I E) as H.
     apply close_all_no_hang' in E. subst. destruct (close_sent s1); cbn [fst snd]; rewrite H; reflexivity.
+  - cbn. rewrite delta_same; reflexivity.
   - cbn. rewrite delta_same; reflexivity.
   - cbn. rewrite delta_same; reflexivity.
   - cbn. rewrite delta_same; reflexivity.
